@@ -35,6 +35,7 @@ package pledge
 //@ # the quorum is a strict majority of the active candidates, drawn from the healthy ones
 //@ func (r *responsible) buildQuorum() (q node.Group, err error)
 //@   ensures err == nil ==> (forall k node.Key :: __in(q, k) ==> __in(r.candidateSnapshot, k) && r.candidateSnapshot[k].State == node.StateHealthy)
+//@   ensures err == nil ==> len(q) == node.SpecActiveCount(r.candidateSnapshot)/2 + 1
 //@   ensures err != nil ==> err == errQuorumUnreachable
 //@   modifies nothing
 
